@@ -12,7 +12,7 @@ open SpatialId
 theorem offsetFIndex_eq (f z : Int) : Gen.offsetFIndex f z = Outcome.ofOption (offsetF f z) := by
   unfold Gen.offsetFIndex offsetF
   have e : ((1 : Int) * 2 ^ (((25 : Int) - 1)).toNat) = 2 ^ 24 := by decide
-  simp only [Id.run, id_pure, CalculateArithmeticShift_eq, e]
+  simp only [Id.run, id_pure, gen_helper, CalculateArithmeticShift_eq, e]
   tie_auto
 
 end SpatialId.Tie
